@@ -69,7 +69,12 @@ def oracle(case, rec, pts=None):
                     coef = L.lf.linear_fit_points(pt)
                     c = float(WRAPPERS[metric](L)(pt, coef))
                     via = float(L.rdp.compute_cost_coef(pt, coef, M))
-                if not (c == via or (c != c and via != via)):
+                # the simplifier decides with compute_cost_coef; it must be the endpoint-line cost of
+                # the stated metric up to rounding (a different evaluation order is not a violation,
+                # a different quantity is)
+                if c == via or (c != c and via != via) or abs(c - via) <= 1e-9 * max(abs(c), abs(via)):
+                    c = via
+                else:
                     rec.fail('cost:compute_cost_coef-differs-from-endpoint-line-%s' % metric,
                              'segment [%d,%d]: compute_cost_coef=%r, linear_fit wrapper=%r' % (l, r, via, c))
                 cost_cache[(l, r)] = c
